@@ -366,6 +366,9 @@ func (c *FnCtx) structInfoOf(t types.Type) *structInfo {
 		if !ok {
 			// statically-handled field type (func values, pointers to scalars): represent as opaque Int
 			fs = SInt
+			if _, isArr := fl.Type().Underlying().(*types.Array); isArr {
+				fs = c.seqSortOfElemSort(SInt)
+			}
 		}
 		sf := structField{name: fl.Name(), typ: fl.Type(), sort: fs, sel: fmt.Sprintf("%s.%s", name, sanitize(fl.Name()))}
 		switch ft := fl.Type().Underlying().(type) {
@@ -473,7 +476,10 @@ func (c *FnCtx) zeroOfSort(s Sort, t types.Type) *Term {
 			return c.f.SEmpty(SB)
 		}
 	case *types.Array:
-		es, _ := c.sortOf(u.Elem())
+		es, ok := c.sortOf(u.Elem())
+		if !ok {
+			return c.f.SRep(s, c.f.Int(0), c.f.Int(u.Len()))
+		}
 		return c.f.SRep(s, c.zeroOfSort(es, u.Elem()), c.f.Int(u.Len()))
 	case *types.Struct:
 		si := c.structInfoOf(t)
@@ -783,7 +789,10 @@ func (c *FnCtx) assumeWF(st *State, v *Term, typ types.Type) {
 	}
 }
 
-var maxLen = pow2(48)
+// maxLen: assumed upper bound on the length of every slice and string that exists in a reachable state
+// (1 TiB); maxAlloc: the runtime limit of a single allocation on linux/amd64 (makeslice panics beyond).
+var maxLen = pow2(40)
+var maxAlloc = pow2(48)
 
 // freshValue creates an unconstrained value of the type (with type invariants assumed).
 func (c *FnCtx) freshValue(st *State, name string, typ types.Type) Value {
